@@ -552,3 +552,170 @@ def register(reg):
     backend_contract(ANYIO_BACKEND, "anyio", "connect_unix_socket", {"rt.anyio.connect_unix"})
     backend_contract(TRIO_BACKEND, "trio", "connect_tcp", {"rt.trio.open_tcp_stream"})
     backend_contract(TRIO_BACKEND, "trio", "connect_unix_socket", {"rt.trio.open_unix_socket"})
+    register_tls_in_tls(reg)
+
+
+def register_tls_in_tls(reg):
+    """TLSinTLSStream (sync back end): TLS through an SSLObject + two MemoryBIOs on top of an already TLS-wrapped socket (https
+    origin through an https proxy).  `# pragma: no cover` in the repository and untested there; wave 5 put two changes into it."""
+    TLS = SYNC_STREAM.rsplit(".", 1)[0] + ".TLSinTLSStream"
+    SSLOBJ = "pyvc.SSLObject"
+    BIO = "pyvc.MemoryBIO"
+    for k in (SSLOBJ, BIO):
+        reg.ext_class(k)
+    reg.ext_class("ssl.SSLWantReadError", "ssl.SSLError")
+    reg.ext_class("ssl.SSLWantWriteError", "ssl.SSLError")
+    reg.consts["ssl.SSL_ERROR_WANT_READ"] = VInt(2)
+    reg.consts["ssl.SSL_ERROR_WANT_WRITE"] = VInt(3)
+    reg.fields(TLS, "TiT", _sock="ref:" + RT_SOCK, _incoming="ref:" + BIO, _outgoing="ref:" + BIO, ssl_obj="ref:" + SSLOBJ)
+    reg.trusted_notes.append("A-runtime.5 (assumed): ssl.SSLObject operations raise SSLWantReadError / SSLWantWriteError / ssl.SSLError; MemoryBIO.read/write/write_eof never raise")
+
+    @reg.intrinsic("ssl.MemoryBIO")
+    def memory_bio(it, st, args, kwargs, node):
+        return it.eng.alloc(st, BIO, "bio")
+
+    @reg.method(BIO, "read")
+    def bio_read(it, st, self_v, args, kwargs, node):
+        return it.eng.fresh(st, "bytes", "bio_out")
+
+    @reg.method(BIO, "write")
+    def bio_write(it, st, self_v, args, kwargs, node):
+        it.emit(st, "bio.write", node, bio=self_v, data=args[0] if args else NONE)
+        return NONE
+
+    @reg.method(BIO, "write_eof")
+    def bio_write_eof(it, st, self_v, args, kwargs, node):
+        it.emit(st, "bio.write_eof", node, bio=self_v)
+        return NONE
+
+    def wrap_bio(it, st, recv, args, kwargs, node):
+        o = it.eng.alloc(st, SSLOBJ, "sslobj")
+        it.emit(st, "ssl.wrap_bio", node, obj=o, kwargs=kwargs)
+        return o
+
+    reg.val_methods = dict(getattr(reg, "val_methods", {}))
+    reg.val_methods["wrap_bio"] = wrap_bio
+
+    def ssl_op(name, result_kind):
+        @reg.method(SSLOBJ, name)
+        def op(it, st, self_v, args, kwargs, node):
+            eng = it.eng
+            ev = it.emit(st, "ssl." + name, node, obj=self_v, args=list(args))
+            raises = ["ssl.SSLWantReadError", "ssl.SSLWantWriteError", "ssl.SSLError"]
+            k = eng.choose(st, 1 + len(raises), f"ssl.{name}@{node.lineno}", ["done"] + [r.rsplit(".", 1)[-1] for r in raises])
+            if k > 0:
+                eng.raise_(st, raises[k - 1], tag={"from": "ssl." + name})
+            if result_kind is None:
+                return NONE
+            r = eng.fresh(st, result_kind, name)
+            if result_kind == "int" and args:
+                b = eng.coerce(st, args[0], "bytes")
+                eng.assume(st, z3.And(r.t >= 1, r.t <= z3.Length(b.t)))
+            ev.data["result"] = r
+            return r
+
+    ssl_op("do_handshake", None)
+    ssl_op("read", "bytes")
+    ssl_op("write", "int")
+
+    @reg.intrinsic("functools.partial")
+    def partial(it, st, args, kwargs, node):
+        f = it.eng.unbox(st, args[0])
+        if not isinstance(f, VFunc) or kwargs:
+            raise Unsupported(f"{it.site(node)}: functools.partial of {f!r}")
+        g = VFunc(f.name, bound=f.bound, info=f.info)
+        g.pre_args = list(getattr(f, "pre_args", []) or []) + list(args[1:])
+        return g
+
+    @reg.intrinsic("typing.cast")
+    def typing_cast(it, st, args, kwargs, node):
+        return args[1]
+
+    def sock_ev(name, ret=None):
+        @reg.method(RT_SOCK, name)
+        def op(it, st, self_v, args, kwargs, node):
+            eng = it.eng
+            names = ["ok", "timeout", "OSError"]
+            ev = it.emit(st, "rt.sock." + name, node, sock=self_v, sock_timeout=eng.heap_read(st, self_v, "RT.timeout"), held_locks=list(st.held), args=list(args))
+            k = eng.choose(st, 3, f"rt.sock.{name}@{node.lineno}", names)
+            ev.data["outcome"] = names[k]
+            if k == 1:
+                eng.raise_(st, "socket.timeout", tag={"from": "rt.sock." + name})
+            if k == 2:
+                eng.raise_(st, "OSError", tag={"from": "rt.sock." + name})
+            if ret == "int":
+                r = eng.fresh(st, "int", name)
+                eng.assume(st, r.t >= 0)
+                ev.data["result"] = r
+                return r
+            return NONE
+        return op
+
+    sock_ev("sendall")
+    sock_ev("recv_into", "int")
+
+    def tls_contract(method, raises, props):
+        @reg.contract
+        class T(Contract):
+            key = TLS + "." + method
+            trees = ("sync",)
+            params = {"timeout": "val", "max_bytes": "int", "buffer": "bytes", "server_hostname": "val", "ssl_context": "val", "sock": "ref:" + RT_SOCK}
+            raises_props = ("C15",) if method in ("read", "write") else ()
+            max_paths = 20000
+            back_edges_of_inlined_loops = True  # the I/O loop lives in the inlined helper _perform_io
+
+            def callsite(self, c, ev):
+                if ev.name.startswith("rt.sock.") and "sock_timeout" in ev.data:
+                    want = c.eng.to_val(c.st, c.args["timeout"]).t
+                    return [("blocking_call_runs_under_the_given_timeout", ("C16", "C18"), ev.data["sock_timeout"].t == want),
+                            ("operates_on_own_socket", ("C02", "C03"), ev.data["sock"].t == F(c, c.self, "TiT._sock"))]
+                return []
+
+            def loop_frame(self, ordinal):
+                # the I/O loops neither re-arm the socket timeout nor replace the stream's objects (checked: inv-keep:loopN:frame)
+                return ("RT.timeout", "TiT._sock", "TiT._incoming", "TiT._outgoing", "TiT.ssl_obj")
+
+            def inlined_loop_frame(self, callee, ordinal):
+                return self.loop_frame(ordinal) if callee.endswith("._perform_io") else None
+
+            def on_back_edge(self, c, ordinal):
+                # C15 ("a call never hangs once its input has ended"): when the socket has reported end of input (recv() == b"",
+                # recv_into() == 0) the TLS layer must be told (write_eof) before it is asked again - otherwise it keeps asking for
+                # more data, every read returns at once, and the loop spins for ever
+                evs = c.since_cut(None)
+                goals = []
+                eof_told = any(e.name == "bio.write_eof" for e in evs)
+                for e in evs:
+                    if e.name in ("rt.sock.recv", "rt.sock.recv_into") and "result" in e.data:
+                        r = e.data["result"]
+                        empty = (z3.Length(r.t) == 0) if isinstance(r, VBytes) else (r.t == 0)
+                        goals.append(z3.Implies(empty, z3.BoolVal(eof_told)))
+                return [("end_of_input_is_passed_on_to_the_tls_layer", ("C15", "C02"), z3.And(*goals) if goals else True)]
+
+        T.raises = raises
+        T.props = props
+        T.__name__ = "TiT_" + method.strip("_")
+
+    RAW = ["socket.timeout", "OSError", "ssl.SSLError", "ssl.SSLWantReadError", "ssl.SSLWantWriteError"]
+    tls_contract("__init__", RAW, ("C16", "C15", "C18"))
+    tls_contract("read", READ, ("C16", "C15", "C02", "C18"))
+    tls_contract("write", WRITE, ("C16", "C15", "C03", "C18"))
+
+    @reg.contract
+    class TiTPerformIO(Contract):
+        key = TLS + "._perform_io"
+        trees = ()
+        inline = True
+        props = ()
+
+    @reg.contract
+    class TiTClose(Contract):
+        key = TLS + ".close"
+        trees = ("sync",)
+        props = ("C06",)
+        raises = []
+        raises_props = ()
+
+        def checks(self, c):
+            closes = c.events("rt.close")
+            return [("closes_the_socket", ("C06",), z3.And(z3.BoolVal(len(closes) == 1), closes[0].data["obj"].t == F(c, c.self, "TiT._sock")) if closes else False)]
